@@ -7,6 +7,9 @@
 (*   Idempotent   a second round trip returns Ok and an object with the same digest (no drift)  *)
 (*   LoadFidelity the numbers of the object deserialised without init() are the saved ones:     *)
 (*                bit-exact for yaml / bin, within 1 unit in the last place for json            *)
+(*   HistoryColumns wherever a struct is saved with both `state` and `history`, the two have   *)
+(*                the same field names (a HistoryVec is derived field by field from its state;  *)
+(*                a field saved in one and not the other does not survive the load)            *)
 (*   Resume       Stutter on the recording: every Step appends exactly the digest the reference *)
 (*                run has at that index (and succeeds / fails as the reference does)            *)
 (*   ResumeJsonTol once a json load happened the statement allows parser rounding: the digest   *)
@@ -18,7 +21,7 @@
 (* are only ever compared for equality. Failures do not block: they are appended to `viol` and  *)
 (* the state re-synchronises. Failures are recorded at most MaxPerSig times per signature       *)
 (* <<kind, event, invariant, fmt, error class, skipped?, non-finite?, Location?>> (the format-  *)
-(* level defects F-C17-1..4 fail thousands of lines); every failure is counted in `stats`.      *)
+(* level defects F-C17-1..3 fail thousands of lines); every failure is counted in `stats`.      *)
 EXTENDS Checkpoint, Json, IOUtils
 
 Rec == ndJsonDeserialize(IOEnv.TRACE)
@@ -32,7 +35,7 @@ tvars == <<kind, step, traj, obj, hist, l, ref, refoks, refstart, jsonSeen, last
 Stat0 == [cases |-> 0, steps |-> 0, moved |-> 0, resumed_exact |-> 0, resumed_tol |-> 0, resume_fail |-> 0,
           saveloads |-> 0, sl_ok |-> 0, sl_fail |-> 0, via_file |-> 0, after_load_steps |-> 0,
           fail_bin_skipped |-> 0, fail_bin_location |-> 0, fail_json_nonfinite |-> 0, fail_other |-> 0,
-          idem_fail |-> 0, idem_json_1ulp |-> 0, fidelity_fail |-> 0, json_1ulp_loads |-> 0,
+          idem_fail |-> 0, idem_json_few_ulps |-> 0, fidelity_fail |-> 0, fidelity_json_few_ulps |-> 0, json_1ulp_loads |-> 0,
           reload_neq_orig |-> 0, step_err |-> 0, panics |-> 0, dedup |-> 0]
 
 TInit == /\ l = 1 /\ ref = <<>> /\ refoks = <<>> /\ refstart = <<0, 0>> /\ jsonSeen = FALSE /\ last = <<0, 0>>
@@ -103,7 +106,8 @@ SaveLoadEv ==
          lim == IF r.fmt = "json" THEN 1 ELSE 0
          idem == r.ok => (r.ok2 /\ r.d1 = r.d2)
          fid  == r.ok => (r.raw_ok /\ r.load_ulps <= lim)
-         names == Names(<< <<"SaveLoadOk", r.ok>>, <<"Idempotent", idem>>, <<"LoadFidelity", fid>> >>)
+         names == Names(<< <<"SaveLoadOk", r.ok>>, <<"Idempotent", idem>>, <<"LoadFidelity", fid>>,
+                           <<"HistoryColumns", r.colmis = 0>> >>)
          binskip == ~r.ok /\ r.fmt = "bin" /\ r.stage = "de" /\ r.skipped > 0 /\ r.errclass # "any"
          binloc  == ~r.ok /\ r.fmt = "bin" /\ r.stage = "de" /\ r.locations > 0 /\ r.errclass = "any"
          jsonnf  == ~r.ok /\ r.fmt = "json" /\ r.stage = "de" /\ r.nonfinite > 0 /\ r.errclass = "null"
@@ -117,8 +121,9 @@ SaveLoadEv ==
                                   !.fail_json_nonfinite = @ + (IF jsonnf THEN 1 ELSE 0),
                                   !.fail_other = @ + (IF ~r.ok /\ ~binskip /\ ~binloc /\ ~jsonnf THEN 1 ELSE 0),
                                   !.idem_fail = @ + (IF idem THEN 0 ELSE 1),
-                                  !.idem_json_1ulp = @ + (IF ~idem /\ r.fmt = "json" /\ r.ok2 /\ r.again_ulps = 1 THEN 1 ELSE 0),
+                                  !.idem_json_few_ulps = @ + (IF ~idem /\ r.fmt = "json" /\ r.ok2 /\ r.again_ulps <= 4 THEN 1 ELSE 0),
                                   !.fidelity_fail = @ + (IF fid THEN 0 ELSE 1),
+                                  !.fidelity_json_few_ulps = @ + (IF ~fid /\ r.fmt = "json" /\ r.raw_ok /\ r.load_ulps <= 4 THEN 1 ELSE 0),
                                   !.json_1ulp_loads = @ + (IF r.ok /\ r.fmt = "json" /\ r.load_ulps = 1 THEN 1 ELSE 0),
                                   !.reload_neq_orig = @ + (IF r.ok /\ ~r.eq_orig THEN 1 ELSE 0),
                                   !.dedup = @ + Dropped(names)]
